@@ -189,7 +189,7 @@ def RKey.reveals : RKey → Plain → Bool
 structure Rec where
   key : RKey
   fields : List (String × Field)
-deriving Repr
+deriving DecidableEq, Repr
 
 abbrev Store := List Rec
 
